@@ -16,7 +16,7 @@
    handlers that return in the future; being prompt their deadlines are in the future, so each
    belongs to a distinct dispatcher waiting in its select -- N of them, plus the one in
    sendInnerCallback: more than N dispatchers. *)
-From Got Require Import Base Ants AntsProofs AntsPrompt.
+From Got Require Import Base Ants AntsProofs AntsCancelProofs AntsPrompt.
 Local Open Scope Z_scope.
 
 (* ------------------------------------------------------------------ helpers *)
@@ -64,6 +64,19 @@ Definition an_kinv (s : an_state) : Prop :=
   (forall k a, In (k, a) (an_skeys s) ->
      In a (an_started (an_tk s k)) /\ forall p, ~ In (a, p) (at_chan (an_tk s k))) /\
   (forall k a p, In (a, p) (at_chan (an_tk s k)) -> In a (an_started (an_tk s k))).
+
+Lemma an_slot_key_cancel tk now sl : an_slot_key (an_cancel_slot tk now sl) = an_slot_key sl.
+Proof.
+  destruct sl as [k a d r p|k a saw p]; cbn [an_cancel_slot]; [|reflexivity].
+  destruct (ab_honours (an_beh_of (at_opts (tk k)) a) && (now <? r))%bool; reflexivity.
+Qed.
+
+Lemma an_skeys_cancel s now nx tk tc sq ac ic mr pc :
+  an_skeys {| an_now := now; an_next := nx; an_tk := tk; an_tchan := tc; an_sendq := sq; an_active := ac; an_ichan := ic;
+              an_workers := map (an_cancel_slot (an_tk s) (an_now s)) (an_workers s); an_maxrun := mr; an_pc := pc |} = an_skeys s.
+Proof.
+  unfold an_skeys. cbn [an_workers]. rewrite map_map. apply map_ext. intros sl. apply an_slot_key_cancel.
+Qed.
 
 Lemma an_kinv_frame s s' :
   NoDup (an_skeys s') -> incl (an_skeys s') (an_skeys s) ->
@@ -147,6 +160,9 @@ Proof.
   - (* get2 *) eapply (Hfr k); try reflexivity. apply incl_refl.
   - eapply (Hfr k); try reflexivity. apply incl_refl.
   - (* advance *) apply (an_kinv_frame s); [exact K1|apply incl_refl| |exact IH]. intros j. split; [reflexivity|apply incl_refl].
+  - (* parent cancel, again *) exact IH.
+  - (* parent cancel: the busy workers keep their (task, attempt) *)
+    unfold an_kinv. rewrite an_skeys_cancel. cbn [an_tk]. exact IH.
 Qed.
 
 Lemma an_kinv_reach cfg s : an_pub cfg = AnAttemptChannel -> an_reach cfg s -> an_kinv s.
@@ -174,7 +190,7 @@ Proof. intros E1 E2 (c & H1 & H2). exists c. rewrite E1, E2. split; assumption. 
 
 Lemma an_jinv_gen s s' :
   an_now s <= an_now s' ->
-  (forall k a d, In (k, a, d) (an_ichan s') -> In (k, a, d) (an_ichan s) \/ an_live (an_tk s' k) a d) ->
+  (forall k a d, In (k, a, d) (an_ichan s') -> In (k, a, d) (an_ichan s) \/ an_live (an_tk s' k) a d \/ d <= an_now s') ->
   (forall k a d r p, In (AnRun k a d r p) (an_workers s') ->
      In (AnRun k a d r p) (an_workers s) \/ In (k, a, d) (an_ichan s)) ->
   (forall k a d, (In (k, a, d) (an_ichan s) \/ exists r p, In (AnRun k a d r p) (an_workers s)) ->
@@ -186,7 +202,7 @@ Proof.
   assert (G1 : forall k a d, In (k, a, d) (an_ichan s) -> an_live (an_tk s' k) a d \/ d <= an_now s').
   { intros k a d Hin. destruct (J1 k a d Hin) as [H|H]; [apply Hl; [left; exact Hin|exact H]|right; lia]. }
   split; [|split; [|exact Hb]].
-  - intros k a d Hin. destruct (Hi k a d Hin) as [H|H]; [apply G1, H|left; exact H].
+  - intros k a d Hin. destruct (Hi k a d Hin) as [H|[H|H]]; [apply G1, H|left; exact H|right; exact H].
   - intros k a d r p Hin. destruct (Hw k a d r p Hin) as [H|H]; [|apply G1, H].
     destruct (J2 k a d r p H) as [H'|H']; [apply Hl; [right; exists r, p; exact H|exact H']|right; lia].
 Qed.
@@ -208,7 +224,9 @@ Qed.
 
 Lemma an_jinv_decide s k a c f :
   an_binv s -> an_kinv s -> an_jinv s -> at_phase (an_tk s k) = AnWait a c ->
-  (c + ao_T (at_opts (an_tk s k)) <= an_now s \/ exists p, In (a, p) (at_chan (an_tk s k))) ->
+  (c + ao_T (at_opts (an_tk s k)) <= an_now s \/
+   (forall k' a' d, In (k', a', d) (an_ichan s) \/ (exists r p, In (AnRun k' a' d r p) (an_workers s)) -> d <= an_now s) \/
+   exists p, In (a, p) (at_chan (an_tk s k))) ->
   an_jinv (an_after s k a f).
 Proof.
   intros (_ & B2 & _) (_ & K2 & K3) IH Hph Hwhy.
@@ -220,7 +238,7 @@ Proof.
   - intros k' a' d r p Hin. left. rewrite Hw in Hin. exact Hin.
   - intros k' a' d Hpres Hlive. destruct (Nat.eq_dec k' k) as [->|Hne]; [|left; rewrite Hoth by exact Hne; exact Hlive].
     destruct Hlive as (c' & E1 & E2). rewrite Hph in E1. inversion E1; subst a' c'. right. rewrite Hn.
-    destruct Hwhy as [Hd|[p Hp]]; [lia|exfalso].
+    destruct Hwhy as [Hd|[Hall|[p Hp]]]; [lia|apply (Hall k a d); exact Hpres|exfalso].
     pose proof (K3 _ _ _ Hp) as Hst. destruct Hpres as [Hin|(r & p' & Hin)].
     + destruct (B2 k a) as [_ Hns]; [|contradiction].
       unfold an_keys. apply in_map_iff. exists (k, a, d). split; [reflexivity|exact Hin].
@@ -235,9 +253,9 @@ Proof.
 Qed.
 
 Lemma an_jinv_step cfg s e s' :
-  an_tinv_all s -> an_binv s -> an_kinv s -> an_jinv s -> an_step cfg s e = Some s' -> an_jinv s'.
+  an_tinv_all s -> an_binv s -> an_kinv s -> an_qinv s -> an_jinv s -> an_step cfg s e = Some s' -> an_jinv s'.
 Proof.
-  intros (IT & Hnext & _ & Hq & _) IB IK IH Hs.
+  intros (IT & Hnext & _ & Hq & _) IB IK IQ IH Hs.
   pose proof IH as (J1 & J2 & J3).
   assert (Hsame : forall (k : nat) (t : an_task) (j : nat), at_phase t = at_phase (an_tk s k) -> at_opts t = at_opts (an_tk s k) ->
             at_phase (an_upd (an_tk s) k t j) = at_phase (an_tk s j) /\ at_opts (an_upd (an_tk s) k t j) = at_opts (an_tk s j)).
@@ -267,7 +285,9 @@ Proof.
     apply (an_jinv_gen s); cbn [an_now an_ichan an_workers an_tk an_active];
       [lia| |intros; left; assumption| | |exact IH].
     + intros k' a' d Hin. apply in_app_or in Hin. destruct Hin as [Hin|[Heq|[]]]; [left; exact Hin|right].
-      inversion Heq; subst k' a' d. rewrite an_upd_same. exists c. split; reflexivity.
+      inversion Heq; subst k' a' d. rewrite an_upd_same. unfold an_dl. destruct (an_pc s) as [q|] eqn:Epc.
+      * right. destruct (IQ q Epc) as (Q1 & _). lia.
+      * left. exists c. split; reflexivity.
     + intros k' a' d _ Hl. left. unfold an_upd. destruct (Nat.eqb_spec k' k) as [->|]; [|exact Hl].
       destruct Hl as (c' & E & _). rewrite M in E. discriminate.
     + intros k'. unfold an_upd. destruct (Nat.eqb_spec k' k) as [->|]; [intros _; exact Hka|apply J3].
@@ -293,9 +313,12 @@ Proof.
       destruct Hin; [left|right; right]; assumption.
     + intros j. apply Hsame; destruct (an_pub cfg); [destruct saw| |destruct saw|]; reflexivity.
   - (* decide via doneChan *)
-    eapply an_jinv_decide; eauto. right. exists a0. apply an_chan_find_in, M0.
-  - (* decide via deadline *)
-    an_bools. eapply an_jinv_decide; eauto.
+    eapply an_jinv_decide; eauto. right. right. exists a0. apply an_chan_find_in, M0.
+  - (* decide via deadline, or via the cancelled parent context *)
+    an_bools. eapply an_jinv_decide; eauto. unfold an_dl in *.
+    destruct (an_pc s) as [q|] eqn:Epc; [right; left|left; assumption].
+    destruct (IQ q Epc) as (Q1 & Q2 & Q3).
+    intros k' a' d [Hin|(r & p & Hin)]; [specialize (Q2 _ _ _ Hin)|specialize (Q3 _ _ _ _ _ Hin)]; lia.
   - (* get2 *)
     apply (an_jinv_frame s); cbn [an_now an_ichan an_workers an_tk an_active an_with_task];
       [lia|intros; assumption|intros; left; assumption| |intros; assumption|exact IH].
@@ -306,6 +329,14 @@ Proof.
   - (* advance *)
     an_bools. apply (an_jinv_frame s); cbn [an_now an_ichan an_workers an_tk an_active];
       [lia|intros; assumption|intros; left; assumption|intros; split; reflexivity|intros; assumption|exact IH].
+  - (* parent cancel, again *) exact IH.
+  - (* parent cancel: every queued callback and running handler is overdue now *)
+    split; [|split]; cbn [an_now an_ichan an_workers an_tk an_active].
+    + intros k a d Hin. right. apply in_map_iff in Hin. destruct Hin as ([[k' a'] d'] & E & _). cbn [an_cancel_cb] in E. inversion E. lia.
+    + intros k a d r p Hin. right. apply in_map_iff in Hin. destruct Hin as (sl & E & _).
+      destruct sl as [k' a' d' r' p'|k' a' saw' p']; cbn [an_cancel_slot] in E; [|discriminate E].
+      destruct (ab_honours (an_beh_of (at_opts (an_tk s k')) a') && (an_now s <? r'))%bool; inversion E; lia.
+    + exact J3.
 Qed.
 
 Lemma an_jinv_reach cfg s : an_pub cfg = AnAttemptChannel -> an_reach cfg s -> an_jinv s.
@@ -313,7 +344,7 @@ Proof.
   intros Hpub. apply (an_reach_inv an_jinv).
   - unfold an_jinv. cbn. repeat split; try (intros; contradiction). intros; discriminate.
   - intros s0 e s1 Hr H Hs. eapply an_jinv_step; eauto;
-      [apply (an_tinv_reach cfg)|apply (an_binv_reach cfg)|apply (an_kinv_reach cfg)]; assumption.
+      [apply (an_tinv_reach cfg)|apply (an_binv_reach cfg)|apply (an_kinv_reach cfg)|apply (an_qinv_reach cfg)]; assumption.
 Qed.
 
 (* ------------------------------------------------------------------ the counting step *)
@@ -454,6 +485,16 @@ Proof.
     + intros k a c Hph. rewrite (P2 _ _ _ Hph).
       destruct (dt =? 0) eqn:Ed; [apply Z.eqb_eq in Ed; lia|]. cbn [orb] in *. apply Z.eqb_neq in Ed.
       rewrite (an_enq_not_quiet cfg s dt k a c IC IK IJ P1) in *; [discriminate|lia|exact Hph].
+  - (* parent cancel, again *) exact (conj P1 (conj P2 P3)).
+  - (* parent cancel: honouring handlers return now, the others were due (hypothesis) *)
+    unfold an_start_prompt in Hpr.
+    match goal with H : an_pc s = None |- _ => rewrite H in Hpr end. rewrite forallb_forall in Hpr.
+    unfold an_pinv. cbn [an_now an_workers an_tk]. split; [|split; [exact P2|exact P3]].
+    intros k a d r p Hin. apply in_map_iff in Hin. destruct Hin as (sl & E & Hin). specialize (Hpr _ Hin).
+    destruct sl as [k' a' d' r' p'|k' a' saw' p']; cbn [an_cancel_slot] in E; [|discriminate E].
+    destruct (ab_honours (an_beh_of (at_opts (an_tk s k')) a')) eqn:Eh; cbn [andb orb] in E, Hpr.
+    + destruct (an_now s <? r') eqn:El; inversion E; subst; an_bools; lia.
+    + inversion E; subst. an_bools. lia.
 Qed.
 
 Lemma an_all_prompt_inv (P : an_state -> Prop) cfg :
@@ -547,6 +588,8 @@ Proof.
   - left. reflexivity.
   - left. reflexivity.
   - left. reflexivity.
+  - left. reflexivity.
+  - left. reflexivity.
 Qed.
 
 Lemma an_honours_prompt b s d : ab_honours b = true -> an_due b s d <= Z.max s d.
@@ -568,8 +611,11 @@ Proof.
   revert s. induction evs as [|e r IH]; intros s Hs Hh; cbn [an_all_prompt]; [reflexivity|].
   cbn [an_sends_honour forallb] in Hh. apply andb_prop in Hh. destruct Hh as [He Hr].
   apply andb_true_intro. split.
-  - destruct e; try reflexivity. cbn [an_start_prompt]. destruct (an_ichan s) as [|[[k' a'] d] l]; [reflexivity|].
-    apply Z.leb_le, an_honours_prompt, an_beh_of_honours, Hs.
+  - destruct e; try reflexivity.
+    + cbn [an_start_prompt]. destruct (an_ichan s) as [|[[k' a'] d] l]; [reflexivity|].
+      apply Z.leb_le, an_honours_prompt, an_beh_of_honours, Hs.
+    + cbn [an_start_prompt]. destruct (an_pc s); [reflexivity|]. apply forallb_forall.
+      intros [k' a' d0 r0 p0|k' a' saw0 p0] _; [|reflexivity]. rewrite (an_beh_of_honours _ _ (Hs k')). reflexivity.
   - destruct (an_step cfg s e) as [s1|] eqn:E; [|reflexivity]. apply IH; [|exact Hr].
     intros j. destruct (an_step_opts cfg s e s1 j E) as [Eo|(o & Ee & Eo)]; rewrite Eo; [apply Hs|subst e; exact He].
 Qed.
